@@ -107,7 +107,10 @@ class Interp:
     def __init__(self, facts, models, max_nodes=400000, trace=False):
         self.F = facts
         self.T = facts['types']
-        self.B = facts['bodies']
+        self.B = dict(facts['bodies'])
+        # analysis shims (plain-loop bodies for std's closure-driven iterator drivers): bodies of the interpreter
+        self.shims = {b['path'].rsplit('::', 1)[-1]: k for k, b in facts.get('shims', {}).items()}
+        self.B.update(facts.get('shims', {}))
         self.traits = facts['traits']
         self.models = models
         self.max_nodes = max_nodes
